@@ -148,9 +148,12 @@ def claim_ops(root: Any) -> list[list]:
             if isinstance(desc, IC.repeated_node_with_interleaving_comments_property):
                 out.append(['claimseq', p, attr, 'claim'])
                 out.append(['claimseq', p, attr, 'unclaim'])
+                out.append(['claimseq1', p, attr, 'claim', []])        # an empty selection selects nothing
+                out.append(['claimseq1', p, attr, 'unclaim', []])
                 for k in range(len(comments)):
                     out.append(['claimseq1', p, attr, 'claim', k])
                     out.append(['claimseq1', p, attr, 'unclaim', k])
+                    out.append(['claimseq1', p, attr, 'claim', [k, 'foreign']])   # one good, one that cannot be found
     return out
 
 
@@ -165,8 +168,9 @@ def apply_claim(root: Any, op: list) -> tuple[Any, Optional[BaseException]]:
         if op[0] == 'claimseq':
             return (w.claim_interleaving_comments() if op[3] == 'claim' else w.unclaim_interleaving_comments()), None
         comments = [t for t in root.token_store if isinstance(t, M.BlockComment)]
-        c = comments[op[4]]
-        return (w.claim_interleaving_comments([c]) if op[3] == 'claim' else w.unclaim_interleaving_comments([c])), None
+        sel = op[4] if isinstance(op[4], list) else [op[4]]
+        cs = [M.BlockComment.from_value('foreign') if k == 'foreign' else comments[k] for k in sel]
+        return (w.claim_interleaving_comments(cs) if op[3] == 'claim' else w.unclaim_interleaving_comments(cs)), None
     except Exception as e:  # noqa
         return None, e
 
@@ -236,8 +240,12 @@ def run_claim_trace(case: dict, clauses: set[str], *, check_from: int = 0) -> tu
             if errs:
                 res.fail(f'C05/{errs[0][0]}[{site}]', where + errs[0][1], sub)
                 return res, None
-        if exc is not None and 'refusal' in clauses and claim_state_key(root) != before_key:
-            res.fail(f'C19/refused-claim-changed-document[{site}]', where + f'{exc} but the attribution changed', sub)
+        if exc is None and op[0] == 'claimseq1' and op[4] == [] and claim_state_key(root) != before_key:
+            res.fail(f'C14/empty-selection-changes-attribution[{site}]', where + 'a call naming no comment changed the attribution', sub)
+            return res, None
+        if exc is not None and claim_state_key(root) != before_key:
+            res.fail(f'{"C14" if "owner" in clauses else "C19"}/refused-claim-changed-attribution[{site}]',
+                     where + f'raised {type(exc).__name__}({exc}) but claimed flags / ownership changed', sub)
             return res, None
         if 'reads' in clauses:
             from .props import c04
